@@ -5,7 +5,7 @@ from checklib.core import enc, run_pair, tok_to_float, cmp_tokens
 from props._conj import PAIRS, op, data_tok, datasets
 
 ID = 'C05'
-LEAN_DEPS = ['RvModel.Lemmas.C05']
+LEAN_DEPS = ['RvModel.Lemmas.C05', 'RvModel.Hand.StickConj', 'RvModel.Lemmas.C05S', 'RvModel.Hand.DispatchAll']
 TRUSTED = ['Bayes rule is stated among generated functions only: ln_f(posterior) = ln_f(prior) + sum ln_f(lik) - ln_m',
            'textbook conjugate updates (Murphy 2007) for the Gaussian pairs are proved equal to the generated updates']
 ASSUMPTIONS = ['Gen.ln_fact, lgamma and lnBeta are opaque in the Bayes identities', 'exact reals; float cancellation in the updates only sampled']
@@ -18,6 +18,18 @@ def gen_ops(man):
 
 
 def extra_run(man, tier, seed):
+    out = extra_run_pairs(man, tier, seed)
+    from props import _stick
+    st = _stick.stick_extra('C05', tier, seed)
+    out['obligations'] = out.get('obligations', []) + st['obligations']
+    out['failures'] += st['failures']
+    for k_, v_ in st['stats'].items():
+        out['stats'][k_] = out['stats'].get(k_, 0) + v_
+    out['samples'] = out.get('samples', []) + st['samples'][:2]
+    return out
+
+
+def extra_run_pairs(man, tier, seed):
     """implementation-level relations: posterior(no data) = prior; sequential = batch; data arm = statistic arm"""
     rng = random.Random(seed * 29 + 3)
     nsets = 12 if tier == 'quick' else 300
@@ -68,3 +80,6 @@ def extra_run(man, tier, seed):
                              'impl': a, 'expected': impl[b + 1] + ' (batch posterior)', 'observed': 'value', 'detail': detail})
     return {'obligations': [], 'failures': failures,
             'stats': {'evaluations': len(lines) + len(l2), 'distinct_nontrivial': len(set(lines)) + len(set(l2))}, 'samples': lines[:2]}
+
+
+INPUT_CLASSES = {'empty_weights': (lambda f: f.get('cls') == 'empty_weights')}
